@@ -164,6 +164,10 @@ def run_case(tid, kind, u, style, cards, thr, rng, polling=False):
     rec = {"tid": tid, "kind": kind, "u": rs(u), "style": style, "audit": audit_type, "cards": cards, "thr": thr,
            "excs": excs}
     cvrs, mvrs = build_cards(kind, cards, rng)
+    if pooled and not polling and rng.random() < 0.4:
+        # ONEAudit padding first: every pooled CVR of a pool lists every contest some CVR of that pool lists
+        rec["padded"] = True
+        guard("add_pool_contests", lambda: CVR.add_pool_contests(cvrs, CVR.pool_contests(cvrs)))
     audit = mk_audit(style, len(cards))
     # Contest / Assertion objects live as long as an audit: the same objects serve case after case (margin, pool
     # means, threshold and test are set anew each time, as a user re-running an audit would), and a second
@@ -180,7 +184,7 @@ def run_case(tid, kind, u, style, cards, thr, rng, polling=False):
     con.cards = len(cards)
     con.sample_threshold = None
     con.assertions = {"a": asn}
-    under = [k for k, c in enumerate(cards) if (not style) or c["cs"] != "x"]
+    under = [k for k in range(len(cards)) if (not style) or cvrs[k].has_contest("con")]
     out = {}
     if not polling:
         sib = getattr(con, "_sibling", None)
